@@ -447,7 +447,6 @@ class icmp_base (packet_base):
     self._init_()
 
     self._init(kw)
-    self.parsed = True
 
   @classmethod
   def unpack_new (cls, raw, offset = 0, buf_len = None, prev = None):
@@ -498,6 +497,7 @@ class NDRouterSolicitation (icmp_base):
     if buf_len is None: buf_len = len(raw)
 
     try:
+      if buf_len - offset < 4: raise TruncatedException()
       offset += 4 # Skip reserved
       offset,o.options = _parse_ndp_options(raw, prev, offset, buf_len)
 
@@ -730,6 +730,7 @@ class TimeExceeded (icmp_base):
     try:
       offset += 4 # Unused
 
+      if offset > buf_len: raise TruncatedException()
       o.next = raw[offset:buf_len]
       offset = buf_len
 
@@ -776,6 +777,7 @@ class PacketTooBig (icmp_base):
     if buf_len is None: buf_len = len(raw)
 
     try:
+      if buf_len - offset < 4: raise TruncatedException()
       o.mtu = struct.unpack_from("!I", raw, offset)[0]
       offset += 4
 
